@@ -223,6 +223,12 @@ class Evaluator:
                 m_ = self._method_of(base, n.attr)
                 if m_ is not None:
                     return m_
+            if isinstance(base, Obj) and not hasattr(base, n.attr) and getattr(base, '_cls', None) is not None:
+                m_ = self._obj_method(base, n.attr)
+                if m_ is not None:
+                    return m_
+            if isinstance(base, ClsRef) and n.attr == '__name__':
+                return base.cls.name
             if isinstance(base, (AbsToken, Obj)):
                 if not hasattr(base, n.attr):
                     raise Unsupported(f'attribute {n.attr} of abstract object')
@@ -233,6 +239,19 @@ class Evaluator:
             if isinstance(base, str) and n.attr in STR_METHODS:
                 return ('strmethod', base, n.attr)
             raise Unsupported(f'attribute {src(n)}')
+        if isinstance(n, ast.JoinedStr):
+            parts = []
+            for v in n.values:
+                if isinstance(v, ast.Constant):
+                    parts.append(str(v.value))
+                elif isinstance(v, ast.FormattedValue) and v.format_spec is None and v.conversion == -1:
+                    x = self.ev(v.value, env)
+                    if not isinstance(x, (str, int)):
+                        raise Unsupported('f-string operand')
+                    parts.append(str(x))
+                else:
+                    raise Unsupported('f-string form')
+            return ''.join(parts)
         if isinstance(n, ast.BoolOp):
             last = None
             for v in n.values:
@@ -364,6 +383,21 @@ class Evaluator:
             if isinstance(op, ast.GtE):
                 return l >= r
         raise Unsupported('comparison')
+
+    def _obj_method(self, obj, name):
+        """bound method of a record that stands for an instance of a class of the analysed source"""
+        m = self.ctx.repo.lookup_method(obj._cls, name)
+        if m is None:
+            return None
+        sub = Evaluator(self.ctx, m.mod, m.cls)
+        for k in ('effects', 'on_yield'):
+            if hasattr(self, k):
+                setattr(sub, k, getattr(self, k))
+        sub._depth = getattr(self, '_depth', 0)
+        fn = MiniFunc(sub, m.node, {}, m.short)
+        if any(isinstance(d, ast.Name) and d.id == 'staticmethod' for d in m.node.decorator_list):
+            return fn
+        return lambda *a, **k: fn(obj, *a, **k)
 
     def _method_of(self, tok, name):
         """bound method of the analysed source for an abstract token: resolved through the MRO of its group class (leaves: sql.Token)"""
@@ -502,6 +536,22 @@ class Evaluator:
                 if isinstance(obj, (int, list, tuple, dict)) and all(isinstance(x, (type, ClsRef)) for x in cs):
                     return isinstance(obj, tuple(x for x in cs if isinstance(x, type)))
                 raise Unsupported('isinstance operand')
+            if f.id == 'type' and len(args) == 1 and isinstance(args[0], AbsToken):
+                c_ = args[0].cls if args[0].cls is not None else self.ctx.repo.classes.get('sqlparse.sql.Token')
+                return ClsRef(c_)
+            if f.id == 'getattr' and len(args) in (2, 3) and isinstance(args[1], str):
+                o_ = args[0]
+                if isinstance(o_, Obj) and hasattr(o_, args[1]):
+                    return getattr(o_, args[1])
+                if isinstance(o_, Obj) and getattr(o_, '_cls', None) is not None:
+                    m_ = self._obj_method(o_, args[1])
+                    if m_ is not None:
+                        return m_
+                if isinstance(o_, AbsToken) and hasattr(o_, args[1]):
+                    return getattr(o_, args[1])
+                if len(args) == 3:
+                    return args[2]
+                raise Crash(f'AttributeError {args[1]!r} in `{src(n)}`')
             if f.id == 'enumerate' and len(args) in (1, 2):
                 return list(enumerate(*args))
             if f.id in ('list', 'tuple') and len(args) == 1 and isinstance(args[0], (list, tuple)):
@@ -509,10 +559,16 @@ class Evaluator:
             if f.id in ('any', 'all'):
                 vals = [self.truth(x) for x in args[0]]
                 return any(vals) if f.id == 'any' else all(vals)
-            if f.id == 'max':
-                return max(args)
-            if f.id == 'min':
-                return min(args)
+            if f.id in ('max', 'min'):
+                kw_ = {k.arg: self.ev(k.value, env) for k in n.keywords}
+                if set(kw_) - {'default'}:
+                    raise Unsupported(f'{f.id}() keyword')
+                try:
+                    if len(args) == 1:
+                        return (max if f.id == 'max' else min)(list(args[0]), **kw_)
+                    return (max if f.id == 'max' else min)(args)
+                except ValueError as e_:
+                    raise Crash(f'ValueError in `{src(n)}`: {e_}')
             if f.id == 'len':
                 return len(args[0])
             if f.id == 'imt':
